@@ -12,6 +12,7 @@
 package mcp
 
 import (
+	"reflect"
 	"encoding/json"
 	"bytes"
 	"context"
@@ -499,6 +500,68 @@ func (w *wireWorld) apply3(kind string, p *tokStream, op string) string {
 			return o
 		}
 		return "x" + hx(b) + " " + o
+	case "caps.clone":
+		kind := p.next()
+		var live []string
+		for !p.done() {
+			t := p.next()
+			if i := strings.LastIndexByte(t, ':'); i > 0 {
+				live = append(live, t[:i])
+			}
+		}
+		return capsClone(kind, live)
+	case "ann.rt":
+		// ToolAnnotations through json.Marshal under the default encoding or MCPGODEBUG=hintomitempty=1 (the package
+		// variable the SDK reads it into), then json.Unmarshal
+		compat := p.next()
+		ob := func(t string) (*bool, bool) {
+			switch t {
+			case "-":
+				return nil, true
+			case "t", "f":
+				b := t == "t"
+				return &b, true
+			}
+			return nil, false
+		}
+		dh, ok1 := ob(p.next())
+		ih, ok2 := ob(p.next())
+		oh, ok3 := ob(p.next())
+		rh, ok4 := ob(p.next())
+		title, ok5 := p.str()
+		if !(ok1 && ok2 && ok3 && ok4 && ok5) || ih == nil || rh == nil || (compat != "0" && compat != "1") {
+			return "bad-op"
+		}
+		saved := hintomitempty
+		defer func() { hintomitempty = saved }()
+		hintomitempty = ""
+		if compat == "1" {
+			hintomitempty = "1"
+		}
+		data, err := json.Marshal(ToolAnnotations{DestructiveHint: dh, IdempotentHint: *ih, OpenWorldHint: oh, ReadOnlyHint: *rh, Title: title})
+		if err != nil {
+			return "marshal-error"
+		}
+		v, err := parseJSON(data)
+		if err != nil {
+			return "unparsable"
+		}
+		var back ToolAnnotations
+		if err := json.Unmarshal(data, &back); err != nil {
+			return v.tok() + " | err"
+		}
+		sh := func(b *bool) string {
+			if b == nil {
+				return "-"
+			}
+			if *b {
+				return "t"
+			}
+			return "f"
+		}
+		return fmt.Sprintf("%s | %s %s %s %s s%s", v.tok(), sh(back.DestructiveHint), sh(&back.IdempotentHint), sh(back.OpenWorldHint), sh(&back.ReadOnlyHint), hxs(back.Title))
+	case "mrtr.retry":
+		return mrtrRetry(p)
 	case "ref.rt":
 		t, ok1 := p.str()
 		n, ok2 := p.str()
@@ -600,6 +663,429 @@ func (w *wireWorld) apply3(kind string, p *tokStream, op string) string {
 		return guarded(15*time.Second, func() string { return w.pg.list(method, cursor) })
 	}
 	return "bad-op"
+}
+
+// ------------------------------------------------------------------ capabilities: clone shares nothing mutable
+
+// capCell: a pointer-to-struct or map member reachable from a capabilities struct without passing through a map
+// value (those are shared by design): the parts a holder of the value can write through.
+type capCell struct {
+	path    string
+	idx     [][]int // field index chain: each step is a FieldByIndex followed (except the last) by a pointer deref
+	mutable bool    // a map, or a pointee with a field to change (an empty struct cannot alias observably)
+}
+
+func capCellsOf(t reflect.Type, prefix string, chain [][]int, cur []int, out *[]capCell) {
+	for i := 0; i < t.NumField(); i++ {
+		f := t.Field(i)
+		if !f.IsExported() {
+			continue
+		}
+		at := append(append([]int{}, cur...), i)
+		name := prefix + f.Name
+		switch f.Type.Kind() {
+		case reflect.Map:
+			*out = append(*out, capCell{name, append(append([][]int{}, chain...), at), true})
+		case reflect.Pointer:
+			if f.Type.Elem().Kind() == reflect.Struct {
+				c := capCell{name, append(append([][]int{}, chain...), at), f.Type.Elem().NumField() > 0 && f.Type.Elem().Size() > 0}
+				*out = append(*out, c)
+				capCellsOf(f.Type.Elem(), name+".", c.idx, nil, out)
+			}
+		case reflect.Struct:
+			capCellsOf(f.Type, name+".", chain, at, out)
+		}
+	}
+}
+
+// at: the member the cell names inside root (a struct value); ok=false if a pointer on the way is nil
+func (c capCell) at(root reflect.Value) (reflect.Value, bool) {
+	v := root
+	for i, step := range c.idx {
+		v = v.FieldByIndex(step)
+		if i+1 < len(c.idx) {
+			if v.IsNil() {
+				return reflect.Value{}, false
+			}
+			v = v.Elem()
+		}
+	}
+	return v, true
+}
+
+func capDump(v reflect.Value) string {
+	switch v.Kind() {
+	case reflect.Pointer, reflect.Interface:
+		if v.IsNil() {
+			return "nil"
+		}
+		return "&" + capDump(v.Elem())
+	case reflect.Struct:
+		var b strings.Builder
+		b.WriteString("{")
+		for i := 0; i < v.NumField(); i++ {
+			if v.Type().Field(i).IsExported() {
+				b.WriteString(v.Type().Field(i).Name + ":" + capDump(v.Field(i)) + " ")
+			}
+		}
+		return b.String() + "}"
+	case reflect.Map:
+		if v.IsNil() {
+			return "nilmap"
+		}
+		var ks []string
+		for _, k := range v.MapKeys() {
+			ks = append(ks, fmt.Sprint(k.Interface())+"="+capDump(v.MapIndex(k)))
+		}
+		sort.Strings(ks)
+		return "map[" + strings.Join(ks, ",") + "]"
+	case reflect.Slice:
+		var b strings.Builder
+		for i := 0; i < v.Len(); i++ {
+			b.WriteString(capDump(v.Index(i)) + ",")
+		}
+		return "[" + b.String() + "]"
+	}
+	return fmt.Sprintf("%#v", v.Interface())
+}
+
+// capMutate: write through the cell — a new key into a map, a changed field of a pointee
+func capMutate(v reflect.Value, tag string) {
+	switch v.Kind() {
+	case reflect.Map:
+		ev := reflect.New(v.Type().Elem()).Elem()
+		if ev.Kind() == reflect.Interface {
+			ev.Set(reflect.ValueOf("mut-" + tag))
+		}
+		v.SetMapIndex(reflect.ValueOf("zz-"+tag), ev)
+	case reflect.Pointer:
+		e := v.Elem()
+		for i := 0; i < e.NumField(); i++ {
+			f := e.Field(i)
+			if !f.CanSet() {
+				continue
+			}
+			switch f.Kind() {
+			case reflect.Bool:
+				f.SetBool(!f.Bool())
+				return
+			case reflect.String:
+				f.SetString(f.String() + "+" + tag)
+				return
+			case reflect.Int, reflect.Int64:
+				f.SetInt(f.Int() + 1)
+				return
+			}
+		}
+	}
+}
+
+func capsNew(kind string) (root reflect.Value, clone func() reflect.Value, addExt func(reflect.Value), ok bool) {
+	switch kind {
+	case "client":
+		c := &ClientCapabilities{}
+		return reflect.ValueOf(c).Elem(), func() reflect.Value { return reflect.ValueOf(c.clone()).Elem() },
+			func(v reflect.Value) { v.Addr().Interface().(*ClientCapabilities).AddExtension("zz-ext", nil) }, true
+	case "server":
+		c := &ServerCapabilities{}
+		return reflect.ValueOf(c).Elem(), func() reflect.Value { return reflect.ValueOf(c.clone()).Elem() },
+			func(v reflect.Value) { v.Addr().Interface().(*ServerCapabilities).AddExtension("zz-ext", nil) }, true
+	}
+	return reflect.Value{}, nil, nil, false
+}
+
+func capsCells(kind string) []capCell {
+	root, _, _, ok := capsNew(kind)
+	if !ok {
+		return nil
+	}
+	var cells []capCell
+	capCellsOf(root.Type(), "", nil, nil, &cells)
+	return cells
+}
+
+// capsClone: a capabilities value whose cells named in live are set (maps with an entry, pointees with their
+// booleans set); clone it; write through every cell of the clone, then through every cell of the original, and
+// look at the other one each time; AddExtension on the clone.
+func capsClone(kind string, live []string) string {
+	root, clone, addExt, ok := capsNew(kind)
+	if !ok {
+		return "bad-op"
+	}
+	cells := capsCells(kind)
+	want := map[string]bool{}
+	for _, l := range live {
+		want[l] = true
+	}
+	for _, c := range cells {
+		v, ok := c.at(root)
+		if !ok || !want[c.path] {
+			continue
+		}
+		switch v.Kind() {
+		case reflect.Map:
+			m := reflect.MakeMap(v.Type())
+			ev := reflect.New(v.Type().Elem()).Elem()
+			if ev.Kind() == reflect.Interface {
+				ev.Set(reflect.ValueOf(map[string]any{"deep": "shared by design"}))
+			}
+			m.SetMapIndex(reflect.ValueOf("k-"+c.path), ev)
+			v.Set(m)
+		case reflect.Pointer:
+			n := reflect.New(v.Type().Elem())
+			for i := 0; i < n.Elem().NumField(); i++ {
+				if f := n.Elem().Field(i); f.CanSet() && f.Kind() == reflect.Bool {
+					f.SetBool(true)
+				}
+			}
+			v.Set(n)
+		}
+	}
+	d0 := capDump(root)
+	cp := clone()
+	same := capDump(cp) == d0
+	n, aliased := 0, 0
+	var where []string
+	for _, c := range cells {
+		v, ok := c.at(cp)
+		if !ok || v.IsNil() || !c.mutable {
+			continue
+		}
+		n++
+		capMutate(v, "clone")
+		if capDump(root) != d0 {
+			aliased++
+			where = append(where, c.path)
+			return fmt.Sprintf("cells %d same %v aliased %d ext - at %s", n, same, aliased, strings.Join(where, ","))
+		}
+	}
+	dcp := capDump(cp)
+	for _, c := range cells {
+		v, ok := c.at(root)
+		if !ok || v.IsNil() || !c.mutable {
+			continue
+		}
+		capMutate(v, "orig")
+		if capDump(cp) != dcp {
+			aliased++
+			where = append(where, c.path)
+			return fmt.Sprintf("cells %d same %v aliased %d ext - at %s", n, same, aliased, strings.Join(where, ","))
+		}
+	}
+	// AddExtension on the clone: stored as an empty non-nil object, invisible in the original
+	d1 := capDump(root)
+	addExt(cp)
+	ext := "ok"
+	if capDump(root) != d1 {
+		ext = "aliased"
+	} else if !strings.Contains(capDump(cp), "zz-ext=&map[]") {
+		ext = "not-stored"
+	}
+	return fmt.Sprintf("cells %d same %v aliased %d ext %s", n, same, aliased, ext)
+}
+
+// genCapsOp: which cells are set (a child only under a set parent); the op names every cell with its class
+func genCapsOp(r *rand.Rand, kind string, all bool) (string, []string) {
+	cells := capsCells(kind)
+	set := map[string]bool{}
+	toks := []string{}
+	n := 0
+	for _, c := range cells {
+		parent := ""
+		if i := strings.LastIndexByte(c.path, '.'); i > 0 {
+			parent = c.path[:i]
+		}
+		parentSet := parent == "" || set[parent]
+		if _, isCell := func() (capCell, bool) {
+			for _, x := range cells {
+				if x.path == parent {
+					return x, true
+				}
+			}
+			return capCell{}, false
+		}(); !isCell {
+			parentSet = true // the parent is a plain struct member, not a cell
+		}
+		if parentSet && (all || r.Intn(3) > 0) {
+			set[c.path] = true
+			cls := "z"
+			if c.mutable {
+				cls = "m"
+				n++
+			}
+			toks = append(toks, c.path+":"+cls)
+		}
+	}
+	return strings.TrimSpace("caps.clone " + kind + " " + strings.Join(toks, " ")), []string{"caps:clone", "caps:" + kind, fmt.Sprintf("caps-cells:%d", n)}
+}
+
+// ------------------------------------------------------------------ multi round trip: the retried request
+
+// mrtrRetry: `mrtr.retry <tool|toolraw|prompt|resource> s<state> (s<key> <roots|elicit|sampling|samplingt> <J body>)*`.
+// The bodies become typed InputResponse values; setMultiRoundTripRetryParams puts them and the state on a request
+// of the method; observed: the two members of the marshalled params, and what decoding those params again gives.
+func mrtrRetry(p *tokStream) string {
+	method := p.next()
+	state, ok := p.str()
+	if !ok {
+		return "bad-op"
+	}
+	responses := InputResponseMap{}
+	for !p.done() {
+		k, ok1 := p.str()
+		kind := p.next()
+		body, ok2 := p.jv()
+		if !ok1 || !ok2 {
+			return "bad-op"
+		}
+		var v InputResponse
+		switch kind {
+		case "roots":
+			v = &ListRootsResult{}
+		case "elicit":
+			v = &ElicitResult{}
+		case "sampling":
+			v = &CreateMessageResult{}
+		case "samplingt":
+			v = &CreateMessageWithToolsResult{}
+		default:
+			return "bad-op"
+		}
+		if err := json.Unmarshal([]byte(body.text()), v); err != nil {
+			return "bad-op"
+		}
+		responses[k] = v
+	}
+	if len(responses) == 0 {
+		responses = nil
+	}
+	var req Request
+	var params, back any
+	switch method {
+	case "tool":
+		x := &CallToolParams{Name: "t"}
+		req, params, back = &ClientRequest[*CallToolParams]{Params: x}, x, &CallToolParams{}
+	case "toolraw":
+		x := &CallToolParamsRaw{Name: "t"}
+		req, params, back = &ClientRequest[*CallToolParamsRaw]{Params: x}, x, &CallToolParamsRaw{}
+	case "prompt":
+		x := &GetPromptParams{Name: "p"}
+		req, params, back = &ClientRequest[*GetPromptParams]{Params: x}, x, &GetPromptParams{}
+	case "resource":
+		x := &ReadResourceParams{URI: "file:///r"}
+		req, params, back = &ClientRequest[*ReadResourceParams]{Params: x}, x, &ReadResourceParams{}
+	default:
+		return "bad-op"
+	}
+	setMultiRoundTripRetryParams(req, responses, state)
+	data, err := json.Marshal(params)
+	if err != nil {
+		return "marshal-error"
+	}
+	v, err := parseJSON(data)
+	if err != nil {
+		return "unparsable"
+	}
+	member := func(k string) string {
+		if m, ok := v.get(k); ok {
+			return m.tok()
+		}
+		return "-"
+	}
+	out := member("inputResponses") + " " + member("requestState") + " | "
+	if err := json.Unmarshal(data, back); err != nil {
+		return out + "err"
+	}
+	var m InputResponseMap
+	var st string
+	switch x := back.(type) {
+	case *CallToolParams:
+		m, st = x.InputResponses, x.RequestState
+	case *CallToolParamsRaw:
+		m, st = x.InputResponses, x.RequestState
+	case *GetPromptParams:
+		m, st = x.InputResponses, x.RequestState
+	case *ReadResourceParams:
+		m, st = x.InputResponses, x.RequestState
+	}
+	keys := make([]string, 0, len(m))
+	for k := range m {
+		keys = append(keys, k)
+	}
+	sort.Strings(keys)
+	parts := []string{"ok", "s" + hxs(st)}
+	for _, k := range keys {
+		kind := "?"
+		switch m[k].(type) {
+		case *ListRootsResult:
+			kind = "roots"
+		case *ElicitResult:
+			kind = "elicit"
+		case *CreateMessageWithToolsResult, *CreateMessageResult:
+			kind = "sampling"
+		}
+		parts = append(parts, "s"+hxs(k), kind)
+	}
+	return out + strings.Join(parts, " ")
+}
+
+// genRetry: a retry op — 0-3 fulfilled responses (typed values of the SDK, marshalled: the canonical bodies) under
+// distinct keys, and a request state (any string, also empty)
+func genRetry(r *rand.Rand) (string, []string) {
+	method := []string{"tool", "toolraw", "prompt", "resource"}[r.Intn(4)]
+	state := ""
+	if r.Intn(4) > 0 {
+		state = genStr(r)
+	}
+	op := "mrtr.retry " + method + " s" + hxs(state)
+	tags := []string{"mrtr:retry", "mrtr:" + method}
+	if state == "" {
+		tags = append(tags, "mrtr:no-state")
+	}
+	n := r.Intn(4)
+	if n == 0 {
+		tags = append(tags, "mrtr:no-responses")
+	}
+	for i := 0; i < n; i++ {
+		var v any
+		kind := ""
+		switch r.Intn(4) {
+		case 0:
+			kind = "roots"
+			x := &ListRootsResult{}
+			if r.Intn(5) > 0 {
+				x.Roots = []*Root{}
+				for j, m := 0, r.Intn(3); j < m; j++ {
+					x.Roots = append(x.Roots, &Root{URI: "file:///" + fmt.Sprint(j), Name: genStr(r)})
+				}
+			}
+			v = x
+		case 1:
+			kind = "elicit"
+			x := &ElicitResult{Action: []string{"accept", "decline", "cancel", "Accept"}[r.Intn(4)]}
+			if r.Intn(2) == 0 {
+				x.Content = map[string]any{genStr(r): genStr(r), "n": float64(r.Intn(100)), "ok": r.Intn(2) == 0}
+			}
+			v = x
+		case 2:
+			kind = "sampling"
+			v = &CreateMessageResult{Role: "assistant", Model: genStr(r), Content: &TextContent{Text: genStr(r)}, StopReason: []string{"", "endTurn", "MaxTokens"}[r.Intn(3)]}
+		default:
+			kind = "samplingt"
+			v = &CreateMessageWithToolsResult{Role: "assistant", Model: genStr(r), Content: []Content{&TextContent{Text: genStr(r)}}}
+		}
+		data, err := json.Marshal(v)
+		if err != nil {
+			continue
+		}
+		body, err := parseJSON(data)
+		if err != nil {
+			continue
+		}
+		op += fmt.Sprintf(" s%s %s %s", hxs(fmt.Sprintf("%s#%d", genStr(r), i)), kind, body.tok())
+		tags = append(tags, "mrtr:"+kind)
+	}
+	return op, tags
 }
 
 // ------------------------------------------------------------------ the CompleteReference codec
